@@ -44,6 +44,28 @@ theorem choose_optimal (acc : Label → Bool) (t : RTree) (d : Deriv) (h : choos
   intro d' hd' ha'
   exact hmax d' (List.mem_filter.mpr ⟨(select_eliminate_iff t d').mpr hd', ha'⟩)
 
+/-- **Elimination is an optimisation only**: it removes no derivation and adds none — selecting with or without it enumerates
+the same derivations. -/
+theorem eliminate_preserves_derivations (t : RTree) (d : Deriv) : d ∈ select (eliminate t) ↔ d ∈ select t := by
+  rw [select_eliminate_iff, mem_select_iff]
+
+/-- **Accepting more root labels never loses a rewriting nor lowers the score**: if a derivation is found for `acc`, one is
+found for every weaker requirement `acc2`, with a score at least as high (e.g. a caller accepting `Published` besides
+`DifferentiallyPrivate`). -/
+theorem choose_mono (acc acc2 : Label → Bool) (hsub : ∀ l, acc l = true → acc2 l = true) (t : RTree) (d : Deriv)
+    (h : choose acc t = some d) : ∃ d2, choose acc2 t = some d2 ∧ score d ≤ score d2 := by
+  obtain ⟨hc, ha, _⟩ := choose_optimal acc t d h
+  cases h2 : choose acc2 t with
+  | none => exact absurd ⟨d, hc, hsub _ ha⟩ ((choose_none_iff acc2 t).mp h2)
+  | some d2 => exact ⟨d2, rfl, (choose_optimal acc2 t d2 h2).2.2 d hc (hsub _ ha)⟩
+
+/-- the score of the applied derivation is determined by the tree and the acceptable labels (ties are between equal scores) -/
+theorem choose_score_unique (acc : Label → Bool) (t : RTree) (d d2 : Deriv) (h : choose acc t = some d)
+    (hc : Consistent d2 t) (ha : acc d2.output = true) (hbest : ∀ d3, Consistent d3 t → acc d3.output = true → score d3 ≤ score d2) :
+    score d = score d2 := by
+  obtain ⟨hcd, had, hmax⟩ := choose_optimal acc t d h
+  exact Nat.le_antisymm (hbest d hcd had) (hmax d2 hc ha)
+
 /-- Non-vacuity: a reduce over a protected table with the real rule shapes; the DP derivation wins. -/
 example :
     let table := RTree.leaf [⟨[], .priv⟩, ⟨[], .pup⟩]
